@@ -14,6 +14,7 @@ mod importdrv;
 mod keydrv;
 mod keys;
 mod ossl;
+mod pathdrv;
 mod pemx;
 mod strdrv;
 mod project;
@@ -47,6 +48,7 @@ fn main() {
 		"sign-faults" => faultdrv::run_cases(&args[2], &args[3], &args[4]),
 		"import" => importdrv::run(&args[2], &args[3], &args[4], &args[5]),
 		"csr-parse" => csrparsedrv::run(&args[2], &args[3]),
+		"path-cases" => pathdrv::run_cases(&args[2], &args[3]),
 		"dn-cases" => dndrv::run_cases(&args[2], &args[3]),
 		"dn-random" => dndrv::run_random(&args[2], args[3].parse().unwrap(), args[4].parse().unwrap()),
 		other => {
